@@ -6,6 +6,7 @@ package main
 
 import (
 	"bytes"
+	"crypto/md5"
 	"encoding/hex"
 	"encoding/json"
 	"errors"
@@ -583,7 +584,17 @@ func emitObs(w *caseWriter, o *pkgObs) {
 	for _, n := range o.Notes {
 		w.line("note %s", xs(n))
 	}
+	// C04: the rpm payload archive byte for byte (up to 64 KiB), for the container model's reader and writer
+	if b, ok := o.Raw["cpio"]; ok && emitCpio && len(b) <= 65536 {
+		w.line("cpio %s", xs(string(b)))
+		for _, e := range o.cpioEntries {
+			w.line("cpioent %s %d %d %x", xs(e.Name), e.Mode, e.Size, md5.Sum(e.Data))
+		}
+	}
 }
+
+// emitCpio: set for C04 runs only (the other properties sharing this emitter do not need the bytes)
+var emitCpio bool
 
 type pkgStats struct {
 	cases      int
@@ -823,6 +834,7 @@ func cmdPkg(prop, tier string, seed int64, out, statsOut, replay string) {
 	defer cleanup()
 	w := newCaseWriter(out)
 	st := newPkgStats()
+	emitCpio = prop == "C04"
 	if replay != "" {
 		replayPkg(replay, w, st, nil)
 	} else {
